@@ -114,7 +114,8 @@ pub fn negamax(
         return qsearch(pos, stats, alpha, beta, ply);
     }
 
-    if should_stop(stats) {
+    // The first iteration is never interrupted at the root: it has to produce a move
+    if should_stop(stats) && !(is_root && stats.depth <= 1) {
         return 0;
     }
 
@@ -130,7 +131,8 @@ pub fn negamax(
         .count()
         >= if is_root { 3 } else { 2 };
 
-    if is_50move || is_threefold {
+    // A drawable root still has to be searched: a move must be played
+    if (is_50move || is_threefold) && !is_root {
         return DRAW_SCORE;
     }
 
